@@ -9,6 +9,7 @@ from .. import lang, vcrun, rx2smt as R
 from ..common import native, SEED
 from specs.build import B
 from specs import dates
+from . import _b1
 
 LEVEL = "proof"
 
@@ -83,6 +84,9 @@ def run(rep, tier):
     #    of the 48 documented ones, for None / any string / lists of up to 3 arbitrary strings (VCs); __date_formats
     #    returns exactly the documented set (VC)
     vcrun.run_functions(rep, ["pregex.meta.essentials.Date.__init__", "pregex.meta.essentials.Date.__date_formats"], tier)
+    # the chain clauses above rest on the combinators' contracts, which assume the class invariant (contract of __infer_type):
+    # its stand-in runs here too (an affix / sign / format text that is mistyped breaks the composition)
+    _b1.run(rep, tier, ["category", "total"], "syntactic category of every emitted text (the meta patterns are compositions)")
     rep.assumptions.append("validation VCs: lists of formats are enumerated up to length 3 with arbitrary contents")
     rep.functions["pregex.meta.essentials.Date.__init__"] = "postcondition on the emitted language, all texts, per format"
     rep.functions["pregex.meta.essentials.Date.__date_pre"] = "via Date.__init__ on each single format"
